@@ -106,8 +106,9 @@ class PurityHooks(Hooks):
             old = self.snap.get(k)
             if old is None or old == d or k in allowed or k == ev.get('id'):
                 continue
-            if allowed:
-                # the documented target, the caller arrays it aliases, and other names for them
+            if allowed and k.startswith('c%d_' % ev.get('c', -9)):
+                # the documented target, the private caller arrays it aliases, and other names the caller holds for them.
+                # Shared entries (and other callers' entries) are never legitimate aliases of a private in-place target.
                 if closure is None:
                     closure = self._closure(it, allowed)
                 if self._aliases(it, it.store[k], closure):
@@ -140,8 +141,8 @@ class PurityHooks(Hooks):
                                % (fn, b, first), i)
             else:
                 self.first_brief[ev['id']] = b
-        if fn == 'check.same_image':
-            pass
+        if tag.get('variant') is not None:
+            it.probe('one_argument_variant')
 
     @staticmethod
     def _arrays_of(it, obj):
@@ -291,7 +292,8 @@ class PurityScenario(Scenario):
 
     must_hit = ['cache_eviction', 'shared_dft_shape', 'seeded_after_rng_fault', 'frozen_run', 'coldwarm_audit',
                 'fn:Plane.multiply', 'fn:propagate_dft', 'fn:propagate_fft', 'fn:Plane.fit_tilt', 'fn:dft2', 'fn:adc',
-                'fn:shot_noise', 'fn:s*', 'fn:collect_charge', 'fn:Wavefront.insert', 'path_pair', 'refused_inplace_call', 'used_vs_fresh']
+                'fn:shot_noise', 'fn:s*', 'fn:collect_charge', 'fn:Wavefront.insert', 'path_pair', 'refused_inplace_call', 'used_vs_fresh',
+                'fn:Tilt.shift', 'one_argument_variant', 'fn:Plane.rescale', 'fn:spider']
     probe_names = must_hit + ['frozen_write_attempt', 'frozen_benign_write']
 
     # ---------------------------------------------------------------- world + shared pool
@@ -347,6 +349,10 @@ class PurityScenario(Scenario):
         add('Pupil', 'P2', k={'amplitude': '@A', 'opd': '@O', 'pixelscale': ph['dx'], 'focal_length': ph['f']})
         add('Tilt', 'TL', k={'x': 2e-6 / ph['f'], 'y': -3e-6 / ph['f']})
         add('Pupil', 'PSC', k={'focal_length': ph['f'] * 1.5})
+        add('DispersiveTilt', 'DT1', k={'trace': [rng.choice([0.5, -1.2]), 0.0], 'dispersion': [1e-3, ph['wl'] - 2e-8]})
+        add('DispersiveTilt', 'DTH', k={'trace': [rng.choice([2.0, 50.0]), rng.choice([0.3, -1.0]), 0.0],
+                                        'dispersion': rng.choice([[1e-3, ph['wl']], [rng.choice([0.5, 1e-3]), 1e-3, ph['wl']]])})
+        add('Image', 'IMA', k={'amplitude': '@IMG'})
         add('Plane', 'PDEF', k={})
         add('Image', 'IM', k={})
         add('Wavefront', 'W0', a=[ph['wl']])
@@ -407,6 +413,9 @@ class PurityScenario(Scenario):
             wi = nid('w')
             out.append(E('propagate_dft', ['@' + src], k, id=wi))
             out.append(E('attr', ['@' + wi, rng.choice(['field', 'intensity'])]))
+            if rng.random() < 0.3:
+                out.append(E(rng.choice(['field.reduce', 'field.overlap']), ['@' + wi]))
+                out.append(E('attr', ['@' + wi, rng.choice(['field', 'intensity'])]))
             acc = nid('acc')
             out.append({'c': c, 'fn': 'array', 'id': acc,
                         'recipe': {'kind': 'uniform', 'shape': [n[0] * os_ + rng.randint(-1, 1), n[1] * os_ + rng.randint(-1, 1)],
@@ -509,6 +518,90 @@ class PurityScenario(Scenario):
             out.append(E('Plane.multiply', ['@' + q, '@W0'], id=w1))
             out.append(E('propagate_dft', ['@' + w1], {'pixelscale': ph['du'], 'shape': [6, 6], 'oversample': 1}))
             return out
+
+        def dispersive():
+            """One shared dispersive element used at several wavelengths in seeded order -- the reference wavelength (solution at the
+            trace origin) among them -- with repeats; then met by wavefronts of different wavelengths."""
+            out = []
+            d = rng.choice(['DTH', 'DTH', 'DT1'])
+            wls = [ph['wl'], ph['wl'] + 5e-8, ph['wl'] - 5e-8, ph['wl'] + 1e-7, ph['wl'] - 2.5e-8]
+            rng.shuffle(wls)
+            first = None
+            for wl_ in wls[:rng.randint(3, 5)]:
+                e = E('Tilt.shift', ['@' + d], {'wavelength': wl_, 'xs': rng.choice([0.0, 1e-6]), 'ys': 0.0})
+                first = first or e
+                out.append(e)
+            out.append(E('Tilt.shift', ['@' + d], dict(first['k']), t={'dup_of': first['id']}))
+            for wl_ in wls[:2]:
+                w0 = nid('w')
+                out.append(E('Wavefront', [wl_], id=w0))
+                w1 = nid('w')
+                out.append(E('Plane.multiply', ['@P2', '@' + w0], id=w1))
+                w2 = nid('w')
+                out.append(E(rng.choice(['Plane.multiply', 'p*w']), ['@' + d, '@' + w1], id=w2))
+                out.append(E('propagate_dft', ['@' + w2], {'pixelscale': ph['du'], 'shape': [8, 9], 'oversample': rng.choice([1, 2])}))
+            return out
+
+        def derived_inplace():
+            """Objects derived from shared ones by calls documented to return new objects belong to the caller: documented in-place
+            operations on them (and on what is derived from them) must leave the shared originals exactly as they were."""
+            out = []
+            p = rng.choice(['P0', 'P1', 'P2'])
+            how = rng.choice(['copy', 'rescale', 'resample', 'fit'])
+            q = nid('q')
+            if how == 'copy':
+                out.append(E('Plane.copy', ['@' + p], id=q))
+            elif how == 'rescale':
+                out.append(E('Plane.rescale', ['@' + p, rng.choice([1.0, 2.0, 1.5])], id=q))
+            elif how == 'resample':
+                out.append(E('Plane.resample', ['@' + p, ph['dx'] * rng.choice([1.0, 0.5])], id=q))
+            else:
+                out.append(E('Plane.fit_tilt', ['@' + p], id=q))
+            ops = rng.sample(['fit', 'setopd', 'setamp', 'fit2'], rng.randint(1, 3))
+            for op in ops:
+                if op in ('fit', 'fit2'):
+                    out.append(E('Plane.fit_tilt', ['@' + q], {'inplace': True}, inplace=['@' + q]))
+                elif op == 'setopd':
+                    out.append(E('setattr', ['@' + q, 'opd', rng.choice([0.0, 1e-8])], inplace=['@' + q]))
+                else:
+                    out.append(E('setattr', ['@' + q, 'amplitude', rng.choice([1.0, 0.5])], inplace=['@' + q]))
+            # the shared original is used again (and a second derivation must look like the first one would on a fresh plane)
+            w1 = nid('w')
+            out.append(E('Plane.multiply', ['@' + p, '@W0'], id=w1))
+            out.append(E('propagate_dft', ['@' + w1], {'pixelscale': ph['du'], 'shape': [6, 7], 'oversample': 1}))
+            out.append(E('Plane.fit_tilt', ['@' + p]))
+            if rng.random() < 0.5:
+                # derived wavefronts: accumulate-into-array on the caller's own image leaves the shared source alone
+                w2 = nid('w')
+                out.append(E('Plane.multiply', ['@TL', '@' + w1], id=w2))
+                out.append(E('setattr', ['@' + w2, 'focal_length', ph['f'] * 2], inplace=['@' + w2]))
+                out.append(E('attr', ['@' + w1, 'focal_length']))
+            # derived spectra
+            if rng.random() < 0.5:
+                sp = nid('sp')
+                out.append(E(rng.choice(['s*', 's+']), ['@SP1', rng.choice([1.0, 0.0, 2.0])], id=sp))
+                out.append(E('Spectrum.crop', ['@' + sp, 450.0, 550.0], inplace=['@' + sp]))
+                out.append(E('Spectrum.to', ['@' + sp, 'um'], inplace=['@' + sp]))
+                out.append(E('Spectrum.integrate', ['@SP1']))
+            return out
+
+        def misc():
+            out = [E('spider', [[9, 9], 1.5], {'angle': rng.choice([0, 30, 90]), 'shift': [rng.randint(-1, 1), 0]}),
+                   E('hex_segments', None, {'rings': 1, 'seg_radius': 4, 'seg_gap': 1, 'flatten': rng.random() < 0.5, 'rotate': rng.random() < 0.5}),
+                   E('pixelscale_nyquist', [ph['wl'], rng.choice([10.0, 20.0])]),
+                   E('min_sampling', [[500e-9, 600e-9], ph['f'], [ph['du'], ph['du']], [8, 8], 2]),
+                   E('sanitize_shape', [rng.choice([7, [7, 8]])]),
+                   E('sanitize_bandpass', [rng.choice([550e-9, [500e-9, 600e-9]])]),
+                   E('zernike_coordinates', ['@MB'], {'shift': rng.choice([None, [1, 0]]), 'rotate': rng.choice([0, 30])}),
+                   E('mesh', [[5, 6]], {'shift': [rng.randint(-1, 1), 0], 'angle': rng.choice([0, 45])}),
+                   E('gaussian2d', [rng.choice([5, 6]), rng.choice([0.8, 1.5])]),
+                   E('boundary_slice', ['@MB'], {'pad': rng.choice([[0, 0], [1, 1]])}),
+                   E('vegaflux', [rng.choice(['V', 'R', 'J'])], {'waveunit': rng.choice(['nm', 'um']), 'valueunit': rng.choice(['photlam', 'flam'])}),
+                   E('qe_asarray', [rng.choice([0.7, '@QEV', '@SP1', '@SP2']), [450.0, 550.0, 650.0], 'nm']),
+                   E('Spectrum.ends', ['@' + rng.choice(['SP1', 'SP2', 'SPF'])], {'tol': rng.choice([1e-4, 0.2])}),
+                   E('Blackbody', [[400.0, 500.0, 600.0], rng.choice([4000.0, 6000.0])], {'waveunit': 'nm'}),
+                   E('Plane.multiply', ['@IMA', '@W0'])]
+            return rng.sample(out, rng.randint(3, 6))
 
         def used_vs_fresh():
             """A plane that has been used, then had its arrays updated in place by their owner, answers like a fresh plane in the same state."""
@@ -660,7 +753,7 @@ class PurityScenario(Scenario):
             return picks
 
         table = [(optics, 3), (fft, 2), (fit, 2), (fit_inplace, 1), (path, 1.5), (refused_fit, 0.7), (used_vs_fresh, 1.2), (dft, 2), (zern, 1), (util, 1.5),
-                 (detector, 3), (spectra, 3)]
+                 (detector, 3), (spectra, 3), (dispersive, 1.2), (derived_inplace, 1.5), (misc, 1.2)]
         return table
 
     # ---------------------------------------------------------------- generation
@@ -699,6 +792,70 @@ class PurityScenario(Scenario):
             return True
         return all(shared(x) for x in ev.get('a', [])) and all(shared(x) for x in ev.get('k', {}).values())
 
+    # one-argument-varied repeats: (position or keyword) -> alternatives; the variant differs from the call it follows in exactly
+    # one argument, so a memo keyed without that argument (or state left behind by the first call) shows against the pristine process
+    VARIANTS = {
+        'power_spectrum': {'pixelscale': lambda v: v * 2, 'rms': lambda v: v * 3, 'half_power_freq': lambda v: v / 2, 'exp': lambda v: v + 1},
+        'dark_current': {0: lambda v: v * 1.5, 'fpn_factor': lambda v: 0.1 if not v else 0, 'shape': lambda v: [v[1], v[0]]},
+        'rule07_dark_current': {0: lambda v: v + 20.0, 1: lambda v: v * 0.5, 2: lambda v: v * 2, 'fpn_factor': lambda v: v / 2},
+        'read_noise': {1: lambda v: v * 0.5},
+        'shot_noise': {'method': lambda v: 'gaussian' if v == 'poisson' else 'poisson'},
+        'propagate_dft': {'pixelscale': lambda v: v * 1.25 if not isinstance(v, list) else [v[0], v[1] * 1.25], 'oversample': lambda v: v + 1,
+                          'shape': lambda v: [v[0] + 1, v[1]] if isinstance(v, list) else v + 1},
+        'propagate_fft': {'oversample': lambda v: v + 1},
+        'dft2': {'unitary': lambda v: not v, 'shift': lambda v: [v[0] + 0.5, v[1]], 'offset': lambda v: [v[0], v[1] + 1]},
+        'zernike': {1: lambda v: v + 1},
+        'circle': {1: lambda v: v - 0.7, 'shift': lambda v: [v[0], v[1] + 1]},
+        'hexagon': {1: lambda v: v - 0.5, 'rotate': lambda v: not v},
+        'rectangle': {1: lambda v: v - 1, 2: lambda v: v + 1, 'angle': lambda v: v + 15},
+        'spider': {1: lambda v: v + 0.5, 'angle': lambda v: v + 10},
+        'mesh': {'angle': lambda v: v + 10, 'shift': lambda v: [v[0], v[1] + 1]},
+        'gaussian2d': {1: lambda v: v * 1.3},
+        'rescale': {1: lambda v: v * 0.8},
+        'rebin': {1: lambda v: 1 if v != 1 else 2},
+        'normalize_power': {'power': lambda v: v * 2},
+        'pixel': {'oversample': lambda v: 3 - v if v in (1, 2) else 1},
+        'jitter': {1: lambda v: v * 1.5},
+        'smear': {1: lambda v: v + 1.0, 'angle': lambda v: v + 45},
+        'charge_diffusion': {1: lambda v: v * 1.4},
+        'adc': {'saturation_capacity': lambda v: 3000 if v is None else v - 500},
+        'Plane.rescale': {1: lambda v: v * 1.25},
+        'Spectrum.sample': {1: lambda v: [x + 3.0 for x in v]},
+        'Spectrum.integrate': {'method': lambda v: 'simps' if v == 'trapz' else 'trapz'},
+        'Spectrum.bin': {'interp_method': lambda v: 'simps' if v == 'trapz' else 'trapz', 'ends': lambda v: 'inside' if v == 'symmetric' else 'symmetric'},
+        'planck_radiance': {1: lambda v: v + 500.0},
+        'planck_exitance': {1: lambda v: v + 500.0},
+        'Tilt.shift': {'wavelength': lambda v: v + 3e-8},
+        'translation_defocus': {'translation': lambda v: v * 2, 'f_number': lambda v: v + 5},
+        'zernike_coordinates': {'rotate': lambda v: v + 15},
+        'collect_charge': {'waveunit': lambda v: v},
+    }
+
+    def _variant(self, rng, ev, n):
+        tab = self.VARIANTS.get(ev.get('fn'))
+        if not tab or ev.get('inplace') or not self._dup_ok(ev):
+            return None
+        keys = [k for k in tab if (isinstance(k, int) and k < len(ev.get('a', [])) and not isinstance(ev['a'][k], str)) or
+                (isinstance(k, str) and k in ev.get('k', {}) and not isinstance(ev['k'][k], str))]
+        if not keys:
+            return None
+        k = rng.choice(sorted(keys, key=str))
+        d = copy.deepcopy(ev)
+        try:
+            if isinstance(k, int):
+                d['a'][k] = tab[k](d['a'][k])
+            else:
+                d['k'][k] = tab[k](d['k'][k])
+        except Exception:
+            return None
+        d['id'] = ev['id'] + 'v%d' % n
+        t = dict(d.get('t', {}))
+        t.pop('dup_of', None)
+        t['fresh'] = True
+        t['variant'] = str(k)
+        d['t'] = t
+        return d
+
     @staticmethod
     def _fresh_ok(ev):
         """Pure calls (nothing documented as in-place, no unseeded consumer of the global RNG) qualify for C10.fresh."""
@@ -726,6 +883,10 @@ class PurityScenario(Scenario):
             pos[c] += 1
             if fresh_rate and self._fresh_ok(ev) and rng.random() < fresh_rate:
                 ev.setdefault('t', {})['fresh'] = True
+            if rng.random() < 0.12:
+                v = self._variant(rng, ev, len(out))
+                if v is not None:
+                    out.append(v)
             if self._dup_ok(ev):
                 done[c].append(ev)
             if done[c] and rng.random() < 0.08:
@@ -774,6 +935,9 @@ class PurityScenario(Scenario):
                         order.append(ev)
                         if self._fresh_ok(ev) and idx % 3 == 0:
                             ev.setdefault('t', {})['fresh'] = True
+                        v = self._variant(rng, ev, len(order)) if idx % 2 == 0 else None
+                        if v is not None:
+                            order.append(v)
                         if self._dup_ok(ev) and idx % 5 == 0:
                             d = copy.deepcopy(ev)
                             d.setdefault('t', {})['dup_of'] = d['id']
